@@ -5,6 +5,8 @@ ROOT = os.path.dirname(os.path.dirname(os.path.abspath(__file__)))
 TECH = "bounded symbolic execution of the real Go code (own go/ssa -> QF_BV SMT-LIB2 executor; z3 5.1 primary, z3 4.8.12 cross-check on verdict queries; counterexamples replayed natively)"
 TRUST = "Trusted: the gosx SSA interpreter and term simplifier (validated by native replay of every counterexample, by reachability witnesses and by a second solver on verdict queries), the SMT solvers, Go's compiler for the native replay. "
 CHECKS = {
+ "C06": dict(text="The real NewServerConnection and NewClientConnection are executed on peer byte strings built from four templates per role with 1-3 arbitrary bytes replacing or inserted at every offset, every truncation, short fully arbitrary inputs and oversized lines, delivered in one chunk and in symbolic segmentations; asserted: no panic, identical outcome and identical answers for every segmentation, session iff an independent reading of the bytes (stdlib textproto on a fresh buffer + the harness's own field logic) says well-formed and compatible, refusals carry an error status or nothing.",
+             note="At most 3 simultaneously arbitrary bytes (4 for fully arbitrary inputs); segmentations: one or two cut points and byte-wise; net/http Header.Write is a differential-tested model under the engine; the client role runs on a carrier already secure (StartTLS decisions are C04's subject); memory growth on endless lines is outside."),
  "C07": dict(text="Inductive step of the real OutQueue/InQueue operations from an arbitrary state satisfying the representation invariant (head sequence number unconstrained over all 2^16 values, which covers wrap-around), plus a bounded run of the real client and server glue over a path with symbolic per-exchange fates, plus the real timeout/retransmission chain with a symbolic loss pattern.",
              note="Window constant scaled to 4 except where stated; the DNS wire is cut out of the pair run (C09/C10); pair run bounded to k actions and <=3 faults; invariant is mine (DESIGN.md Appendix C) - a counterexample to induction is a violation of the step from an invariant state, reachability of that state is argued, not solved."),
  "C08": dict(text="Every path of Encode/Decode of each codec is executed symbolically over all 2^(8n) inputs of each length n within the bound; unsat of (path condition and not property) is the verdict. Bounded by input length; Base85 byte equality only for n<=1 (arithmetic kernel out of solver reach).",
